@@ -178,7 +178,10 @@ def param_desc(draw):
     """Descriptor of a parameter in one direction, resolved against the built object's own knot vector:
        ["in", span_selector, num/64] strictly inside a non-empty span; ["knot", selector] on an interior knot
        (falls back to 'in' when there is none); ["start"]; ["end"]."""
-    k = draw(st.sampled_from(["in", "in", "knot", "knot", "start", "end", "other", "near", "decimal"]))
+    k = draw(st.sampled_from(["in", "in", "knot", "knot", "start", "end", "other", "near", "decimal", "within"]))
+    if k == "within":
+        # 2^-25 (3e-8) next to an interior knot: closer than the library's knot identification tolerance (10e-8), not identical
+        return ["within", draw(st.integers(0, 63)), draw(st.integers(1, 63)) / 64.0, draw(st.sampled_from([-1, 1]))]
     if k == "decimal":
         # not a dyadic rational: (span start) + m/7000 of the span width, preferably in the first span (small values, which the
         # library's 18-decimal knot rounding does not reproduce exactly)
